@@ -421,3 +421,19 @@ def _reader_requires(prog, eff, f, node, kind):
             continue
         return False
     return True
+
+
+_run_base = run
+
+
+def run(ctx):
+    _run_base(ctx)
+    prog = ctx.prog
+    ctx.rule("R2.9", "the emulator accepts the markers where the runtime puts them, and the clock table it is given: "
+             "OF[ and OF] follow the event that filled the buffer, whatever it was, so the ovni model must accept them "
+             "in every thread state, the dead one included; a clock table entry is matched to looms by the exact host "
+             "name (C03 R3.4's evaluation on names that are prefixes of each other)")
+    from rules import round4
+    round4.check_flush_markers_any_state(ctx, "R2.9")
+    round4.share(ctx, "R2.9", "C03", lambda i_: i_["rule"] == "R3.4" and i_["inst"].startswith("parse_clkoff_entry:"), "clock-table:",
+                 "a valid trace of hosts named node1 and node10 is rejected", 1)
